@@ -422,6 +422,58 @@ example :
 
 /-! ## the leaf builders -/
 
+/-- The chain-length guards of the two leaf builders, **regenerated** from serialization.go (`n = len(chain) = rest.length + 1`),
+are the list patterns of the model: too short ⇒ refused; long enough ⇒ the TBS transformation paired with the key of
+`chain[1]` (direct, embedded) or `chain[2]` (pre-issuer). -/
+theorem leaf_guards_as_modelled (tbs : Bytes) (rest : List Bytes) (p : PreIssuer) :
+    (Gen.leafChainTooShort (rest.length + 1 : Nat) = true →
+      leafFromPrecertChain tbs rest none = none ∧ leafFromPrecertChain tbs rest (some p) = none) ∧
+    (Gen.leafPreIssuerChainTooShort (rest.length + 1 : Nat) = true → leafFromPrecertChain tbs rest (some p) = none) ∧
+    (Gen.leafEmbeddedChainTooShort (rest.length + 1 : Nat) = true → leafForEmbeddedSCT tbs rest = none) ∧
+    (Gen.leafChainTooShort (rest.length + 1 : Nat) = false →
+      ∃ k r, rest = k :: r ∧ leafFromPrecertChain tbs rest none = (buildPrecertTBS tbs none).map (·, k)) ∧
+    (Gen.leafPreIssuerChainTooShort (rest.length + 1 : Nat) = false →
+      ∃ k1 k2 r, rest = k1 :: k2 :: r ∧ leafFromPrecertChain tbs rest (some p) = (buildPrecertTBS tbs (some p)).map (·, k2)) ∧
+    (Gen.leafEmbeddedChainTooShort (rest.length + 1 : Nat) = false →
+      ∃ k r, rest = k :: r ∧ leafForEmbeddedSCT tbs rest = (removeExt sctOid tbs).map (·, k)) := by
+  unfold Gen.leafChainTooShort Gen.leafPreIssuerChainTooShort Gen.leafEmbeddedChainTooShort
+  simp only [decide_eq_true_eq, decide_eq_false_iff_not]
+  refine ⟨?_, ?_, ?_, ?_, ?_, ?_⟩
+  · intro h
+    cases rest with
+    | nil => simp [leafFromPrecertChain]
+    | cons k r => simp at h; omega
+  · intro h
+    cases rest with
+    | nil => simp [leafFromPrecertChain]
+    | cons k r =>
+      cases r with
+      | nil => simp [leafFromPrecertChain]
+      | cons k2 r2 => simp at h; omega
+  · intro h
+    cases rest with
+    | nil => simp [leafForEmbeddedSCT]
+    | cons k r => simp at h; omega
+  · intro h
+    cases rest with
+    | nil => simp at h
+    | cons k r => exact ⟨k, r, rfl, by simp [leafFromPrecertChain]⟩
+  · intro h
+    cases rest with
+    | nil => simp at h
+    | cons k r =>
+      cases r with
+      | nil => simp at h
+      | cons k2 r2 => exact ⟨k, k2, r2, rfl, by simp [leafFromPrecertChain]⟩
+  · intro h
+    cases rest with
+    | nil => simp at h
+    | cons k r => exact ⟨k, r, rfl, by simp [leafForEmbeddedSCT]⟩
+
+example : Gen.leafChainTooShort 1 = true ∧ Gen.leafChainTooShort 2 = false ∧ Gen.leafPreIssuerChainTooShort 2 = true ∧
+    Gen.leafPreIssuerChainTooShort 3 = false ∧ Gen.leafEmbeddedChainTooShort 0 = true ∧ Gen.leafEmbeddedChainTooShort 2 = false := by
+  decide
+
 /-- **Identical log entry.** `MerkleTreeLeafFromChain` on the precertificate chain and `MerkleTreeLeafForEmbeddedSCT` on the final
 chain put the same TBSCertificate and the same issuer key into the `PreCert` entry: direct issuer (chains
 `[precert, issuer, …]` / `[final, issuer, …]`) … -/
